@@ -19,6 +19,15 @@ from .norm import NotAlgebraic, Poly, num_fraction
 from .source import AnalysisError, dotted_name
 
 
+class ReadableWrong(AnalysisError):
+    """The construction is read, and a construct in it is wrong: reported as a violation, not as 'cannot decide'."""
+
+    def __init__(self, msg, node=None, required=""):
+        AnalysisError.__init__(self, msg)
+        self.node = node
+        self.required = required
+
+
 class Item:
     def __init__(self, kind, template, args, node):
         self.kind = kind
@@ -445,6 +454,28 @@ class SymList:
                     self.stmt(eq)
                 return
             raise AnalysisError("unsupported tuple assignment %s" % ast.unparse(st)[:70])
+        if isinstance(st, ast.Assign) and len(st.targets) == 1 and isinstance(st.targets[0], (ast.Tuple, ast.List)) \
+                and all(isinstance(t, (ast.Tuple, ast.List)) and len(t.elts) == 1 and isinstance(t.elts[0], ast.Name) for t in st.targets[0].elts) \
+                and isinstance(st.value, ast.Call) and isinstance(st.value.func, ast.Attribute) and st.value.func.attr == "fetchall" \
+                and self.last_sql is not None and len(self.last_sql.compound) == len(st.targets[0].elts) - 1 and self.last_sql.compound:
+            # (a,), (b,) = cursor.fetchall()  over  SELECT .. UNION [ALL] SELECT ..: row k is the k-th statement's only for UNION ALL
+            sel = self.last_sql
+            ops = [op for op, _ in sel.compound]
+            if any(op != "UNION ALL" for op in ops):
+                raise ReadableWrong("rows of `... %s ...` bound by position to %s: UNION removes duplicate rows and returns them in value order, so row k is not the k-th statement's result"
+                                    % (ops[0], ast.unparse(st.targets[0])[:50]), st,
+                                    "each count bound to the statement that computes it (separate statements, scalar sub-queries, or UNION ALL)")
+            if sel.order_by:
+                raise AnalysisError("compound SELECT with ORDER BY bound by position")
+            import copy as _copy
+            first = _copy.copy(sel)
+            first.compound = []
+            for k, (t, sub) in enumerate(zip(st.targets[0].elts, [first] + [c for _, c in sel.compound])):
+                atom = self.count_atom(sub, 0)
+                if atom is None:
+                    raise AnalysisError("row %d of the compound SELECT is not a recognised count" % k)
+                self.intenv[t.elts[0].id] = Poly.atom(atom)
+            return
         if isinstance(st, ast.For) and not st.orelse and len(st.body) == 1:
             # for T in IT: L.append(E)   is   L += [E for T in IT]
             b = st.body[0]
